@@ -123,6 +123,49 @@ def exception_route_scenarios():
     return scns
 
 
+def late_definition_scenarios():
+    """the definition arrives (or is replaced) after the name/arity has already been called: late binding holds for
+    Python predicates of every registration style exactly as for compiled ones, with and without dynamic facts of the
+    same key, directly and through call/N and a compiled caller"""
+    X, Y = V(0), V(1)
+    script = {"d/1": [clause(C("d", X), call(C("nat", X)))]}
+    extra = {"nat/1": [clause(C("nat", A("compiled")))]}
+    rows_a = [{"args": [A("red")], "nv": 0}, {"args": [A("green")], "nv": 0}]
+    rows_b = [{"args": [A("second")], "nv": 0}]
+    CK = ("plain", "wrapped", "method", "partial", "object")
+    probes = [(C("nat", V(0)), 1), (C("d", V(0)), 1), (C("call", A("nat"), V(0)), 1), (C("nat", V(0), V(1)), 2)]
+
+    def probe(base):
+        return [[{"op": "solve", "e": 1, "r": base + i, "goal": g, "qnv": q, "k": 0}] for i, (g, q) in enumerate(probes)]
+
+    def reg(style, fid, rows, yields, ck):
+        return {"op": "register", "e": 1, "name": "nat", "arity": -1 if style == "variadic" else 1, "style": style, "fid": fid, "rows": rows,
+                "ckind": ck if style == "inferred" else "plain", "raise": {"call": 0, "row": 0}, "yields": yields}
+
+    scns = []
+    idx = 0
+    for first in STYLES:
+        for second in STYLES + ["load", "load-ow"]:
+            for with_fact in (True, False):
+                for yields in (True, False):
+                    idx += 1
+                    steps = [[{"op": "load", "e": 1, "script": "P", "ow": True}]]
+                    if with_fact:
+                        steps.append([{"op": "assert", "e": 1, "term": C("nat", A("blue")), "atEnd": True, "r": 0}])
+                    steps += probe(10)
+                    steps.append([reg(first, "na", rows_a, yields, CK[idx % 5])])
+                    steps += probe(20)
+                    if second == "load":
+                        steps.append([{"op": "load", "e": 1, "script": "X", "ow": False}])
+                    elif second == "load-ow":
+                        steps.append([{"op": "load", "e": 1, "script": "X", "ow": True}])
+                    else:
+                        steps.append([reg(second, "nb", rows_b, not yields, CK[(idx + 2) % 5])])
+                    steps += probe(30)
+                    scns.append({"scripts": {"P": script, "X": extra}, "steps": steps, "keys": [{"n": "nat", "k": 1}] if with_fact else []})
+    return scns
+
+
 def run(tier, seed):
     chk = Check("C20", tier, seed)
     rnd = random.Random(seed)
@@ -145,6 +188,7 @@ def run(tier, seed):
                            features=features, opts={"check_nlog": True})
     chk.machine_family("meta-and-raise", meta_scenarios(), features=features, opts={"check_nlog": True})
     chk.machine_family("exception-types-by-route", exception_route_scenarios(), features=features)
+    chk.machine_family("definition-arrives-after-the-first-call", late_definition_scenarios(), features=features)
     need = ["DoCallNative", "DoNativeExhausted", "DoNativeRaise", "DoCut", "DoCallFacts"]
     missing = [e for e in need if not chk.events.get(e)]
     if missing:
